@@ -71,6 +71,16 @@ def all_cases(tier):
     for h in itertools.product(opts, repeat=3):
         if _has_cycle(h):
             yield ("Y", h)
+    # L: load histories. The classes live in two TOP-LEVEL modules loaded one after the other into one collection, in both
+    # orders, with the MRO queried after every step (answers given early must not be remembered once more is known)
+    for n in range(2, _NX[tier] + 1):
+        for h in hierarchies(n):
+            if not any(h):
+                continue
+            for mask in range(1, 2 ** n - 1):
+                for order in (("app7", "lib7"), ("lib7", "app7")):
+                    for early in (False, True):
+                        yield ("L", h, mask, order, early)
 
 
 def _has_cycle(h):
@@ -283,6 +293,46 @@ def _run_case(griffe, acc, case):
                 except Exception as e:  # noqa: BLE001
                     acc.violation(f"inherit/getitem-raise/{type(e).__name__}", f"C{i}[{n!r}] raised {e!r}", case)
         acc.case(case, outcome="members:" + ("inherits" if any_inh else "none"), nontrivial=any_inh)
+    elif kind == "L":
+        mask, order, early = case[2], case[3], case[4]
+        n = len(h)
+        where = {i: ("lib7" if mask >> i & 1 else "app7") for i in range(n)}
+        files = {}
+        for modname in ("app7", "lib7"):
+            mine = [i for i in range(n) if where[i] == modname]
+            names, imports = {}, []
+            for i in mine:
+                for j in h[i]:
+                    if where[j] != modname and j not in names:
+                        names[j] = f"B{j}"
+                        imports.append(f"from {where[j]} import C{j} as B{j}")
+            src = "\n".join(imports) + "\n"
+            for i in mine:
+                b = "(" + ", ".join(names.get(j, f"C{j}") for j in h[i]) + ")" if h[i] else ""
+                src += f"class C{i}{b}:\n    pass\n"
+            files[f"{modname}.py"] = src
+        with sandbox.scratch_dir("c07l") as d:
+            sandbox.write_tree(d, files)
+            loader = griffe.GriffeLoader(search_paths=[d])
+            for step, modname in enumerate(order):
+                loader.load(modname)
+                if early:
+                    for m in loader.modules_collection.members.values():
+                        for c in m.members.values():
+                            if not c.is_alias and c.is_class:
+                                try:
+                                    c.mro()
+                                    c.inherited_members  # noqa: B018
+                                except Exception:  # noqa: BLE001
+                                    pass
+            loader.resolve_aliases(implicit=True)
+            exp, _ = _cpython(h)
+            outs = []
+            for i in range(n):
+                got = _judge_mro(acc, case, loader.modules_collection[where[i]].members[f"C{i}"], exp[i], "load-history/" + ("queried-early" if early else "queried-at-end") + "/" + ("derived-first" if order[0] == "app7" else "base-first"))
+                outs.append(got[0] + ":" + exp[i][0])
+        acc.case(case, outcome="hist:" + ",".join(sorted(set(outs))), nontrivial=True)
+        acc.observe(outs)
     elif kind == "Y":
         mod = _load_single(griffe, _source(h))
         bad = _reaches_cycle(h)
